@@ -11,6 +11,8 @@ pub enum Call {
     Trans(u32, u32, u32, u32), // state label, lo, hi, target label
     Default(u32, u32),
     Final(u32),
+    /// an intermediate build() on the same builder (result discarded); the calls that follow extend the builder
+    Build,
 }
 
 #[derive(Clone, Debug)]
@@ -48,6 +50,9 @@ impl Spec {
                 Call::Final(s) => {
                     let _ = writeln!(o, "f {}", s);
                 }
+                Call::Build => {
+                    let _ = writeln!(o, "b");
+                }
             }
         }
         o
@@ -68,6 +73,7 @@ impl Spec {
                 ("t", 5) => calls.push(Call::Trans(d(tk[1])?, h(tk[2])?, h(tk[3])?, d(tk[4])?)),
                 ("d", 3) => calls.push(Call::Default(d(tk[1])?, d(tk[2])?)),
                 ("f", 2) => calls.push(Call::Final(d(tk[1])?)),
+                ("b", 1) => calls.push(Call::Build),
                 _ => return Err(format!("bad line {}", line)),
             }
         }
@@ -111,6 +117,7 @@ impl Spec {
                     let i = touch(*s, &mut states, &mut labels);
                     states[i].is_final = true;
                 }
+                Call::Build => {}
             }
         }
         states
